@@ -62,6 +62,10 @@ def bytearray_decode(self: "arr", encoding: "str") -> "seq[char]":
 @contract("fcp.serde:_decode_str")
 def _decode_str(buffer: "_Buffer", type: "ref:StringType") -> "seq[char]":
     fresh("v", "dyn")
+    # C16: the count prefix and every announced character must be inside the input
+    must_raise_if(buffer.bitaddr + 32 > 8 * arr_len(buffer.buffer))
+    must_raise_if(buffer.bitaddr + 32 <= 8 * arr_len(buffer.buffer)
+                  and buffer.bitaddr + 32 + 8 * val_bits(buffer.gbits, buffer.bitaddr, 32) > 8 * arr_len(buffer.buffer))
     requires(Rep(buffer.buffer, buffer.gbits) and buffer.bitaddr >= 0 and size(buffer.gbits) == 8 * arr_len(buffer.buffer))
     modifies(buffer.bitaddr)
     may_raise(ValueError)
@@ -110,6 +114,7 @@ def _decode_array(buffer: "_Buffer", fcp: "ref:FcpV2", type: "ref:ArrayType") ->
 @contract("fcp.serde:_decode_dynamic_array")
 def _decode_dynamic_array(buffer: "_Buffer", fcp: "ref:FcpV2", type: "ref:DynamicArrayType") -> "seq[dyn]":
     fresh("v", "dyn")
+    must_raise_if(buffer.bitaddr + 32 > 8 * arr_len(buffer.buffer))    # C16: a count prefix that is not there
     requires(DecPre(buffer.buffer, buffer.gbits, buffer.bitaddr))
     requires(wf_type(fcp, type))
     modifies(buffer.bitaddr)
@@ -130,6 +135,7 @@ def _decode_dynamic_array(buffer: "_Buffer", fcp: "ref:FcpV2", type: "ref:Dynami
 @contract("fcp.serde:_decode_optional")
 def _decode_optional(buffer: "_Buffer", fcp: "ref:FcpV2", type: "ref:OptionalType") -> "dyn":
     fresh("v", "dyn")
+    must_raise_if(buffer.bitaddr + 8 > 8 * arr_len(buffer.buffer))     # C16: a presence flag that is not there
     requires(DecPre(buffer.buffer, buffer.gbits, buffer.bitaddr))
     requires(wf_type(fcp, type))
     modifies(buffer.bitaddr)
